@@ -1610,3 +1610,33 @@ func ruleNilFieldBelief(c *Ctx, rule string) {
 	}
 	c.CallSites(n)
 }
+
+// ruleDeleteHooksIdempotent (C15.IDEMPOTENT): the delete-side hooks of the constraints take entries out with
+// the unconditional removers. DeleteById runs the parent's delete constraints twice for an entity that has child
+// data (once through the child's chained indexing context, once for the parent itself): a hook that asks
+// "was it there?" (CheckAndDelete…) and reports "no" as an error makes the delete of every such entity fail.
+func ruleDeleteHooksIdempotent(c *Ctx, rule string) {
+	p := c.P
+	n := 0
+	for _, fn := range c.prodFuncs("boltz") {
+		if fn.Name() != "ProcessBeforeDelete" || fn.Signature.Recv() == nil {
+			continue
+		}
+		n++
+		c.Analysed(FnName(fn))
+		what, at, via := reachesStatic(fn, 2, func(call ssa.CallInstruction) string {
+			cal, _ := calleeOf(call.Common())
+			if cal != nil && strings.HasPrefix(cal.Name(), "CheckAndDelete") {
+				return cal.Name()
+			}
+			return ""
+		})
+		pos := p.Pos(fn.Pos())
+		if at != nil {
+			pos = p.Pos(at.Pos())
+		}
+		c.Check(what == "", rule, FnName(fn), pos, "entries are taken out with the unconditional removers", "a delete hook removes its entry through "+what+via+", which answers whether the entry was there: the parent's delete constraints run twice for an entity with child data, the second run finds the entry gone, and a hook that reports that as an error makes the delete of every such child entity fail (through either store)")
+	}
+	c.CallSites(n)
+	c.Floor(rule, 5)
+}
